@@ -38,6 +38,11 @@ DOCUMENTED = {
 }
 
 
+def _compound_keys(router):
+    comp = router._COMPOUND_EXTENSIONS
+    return list(comp.keys()) if hasattr(comp, "keys") else [x[0] for x in comp]
+
+
 def readme_extensions():
     import common
     txt = (common.REPO / "README.md").read_text(encoding="utf-8")
@@ -65,9 +70,13 @@ def gen_tables(ctx):
     txt += "From S2T Require Import Lib.PyStr C07.Model.\n\nDefinition T : tables := {|\n"
     txt += "  registry := " + coq_list([pair(coq_str(k), pair(coq_str(v[0]), coq_str(v[1]))) for k, v in reg.items()]) + ";\n"
     txt += "  aliases := " + coq_list([pair(coq_str(k), coq_str(v)) for k, v in router._EXTENSION_ALIASES.items()]) + ";\n"
-    txt += "  compound := " + coq_list([pair(coq_str(k), coq_str(v)) for k, v in router._COMPOUND_EXTENSIONS.items()]) + ";\n"
+    comp = router._COMPOUND_EXTENSIONS
+    comp_items = list(comp.items()) if hasattr(comp, "items") else [tuple(x) for x in comp]
+    ctx.obligation("tables:_COMPOUND_EXTENSIONS is a mapping (both entry points iterate its keys)", hasattr(comp, "items"), type(comp).__name__)
+    txt += "  compound := " + coq_list([pair(coq_str(k), coq_str(v)) for k, v in comp_items]) + ";\n"
     txt += "  supported := " + coq_list([coq_str(k) for k in sorted(router._SUPPORTED_EXTENSIONS)]) + ";\n"
-    txt += "  mime_map := " + coq_list([pair(coq_str(k), coq_str(v)) for k, v in MIME_TYPE_MAPPING.items()]) + "\n|}.\n\n"
+    ctx.obligation("tables:MIME_TYPE_MAPPING is a plain dict (in / [] / get agree)", type(MIME_TYPE_MAPPING) is dict, type(MIME_TYPE_MAPPING).__name__)
+    txt += "  mime_map := " + coq_list([pair(coq_str(k), coq_str(v)) for k, v in dict.items(MIME_TYPE_MAPPING)]) + "\n|}.\n\n"
     txt += "Definition documented : list (str * str) := " + coq_list(
         [pair(coq_str(e), coq_str(DOCUMENTED[e])) for e in docs if e in DOCUMENTED]) + ".\n"
     ctx.gen_write("Gen/C07Tables.v", txt)
@@ -87,7 +96,7 @@ def path_corpus(ctx, docs):
     other = [e for e in mt if e not in exts]
     rng.shuffle(other)
     exts |= set(other[: ctx.n(40, 400)])
-    exts |= {"", "unknown", "docx2", "d", "tar", "gz", "tar.gz", "tar.bz2", "tar.xz", "TAR.GZ", "tar.gzz", "exe", "bin"}
+    exts |= {"", "unknown", "docx2", "d", "tpl", "htmx", "pdfx", "sp", "xlsmx", "unknown2", "tar", "gz", "tar.gz", "tar.bz2", "tar.xz", "TAR.GZ", "tar.gzz", "exe", "bin"}
     exts = sorted(exts)
     stems = ["a", "report", "my.report", ".hidden", "..", ".", "", "dir/a", "dir.d/a", "dir.docx/a", "a b", " a",
              "/abs/x", "./x", "x.", "x..", "...x", "a.tar", ".tar", "http://h/p/a", "https://h/a.b/c?x=1.y",
@@ -123,7 +132,7 @@ def path_corpus(ctx, docs):
     # URL/UNC-like names, characters that NFKC-normalise to URL delimiters.  Placed first so that the quick
     # tier never samples them away.
     router_exts = sorted(set(k.lstrip(".") for k in router._SUPPORTED_EXTENSIONS) | set(router._EXTRACTOR_REGISTRY)
-                         | set(router._EXTENSION_ALIASES) | {c.lstrip(".") for c in router._COMPOUND_EXTENSIONS}
+                         | set(router._EXTENSION_ALIASES) | {c.lstrip(".") for c in _compound_keys(router)}
                          | {"unknown", "bak", ""})
     tails = ["\n", "\r\n", "\r", "\n\n", "\t", "\x0b", "\x0c", "\x1c", "\x85", "\u2028", "\u00a0", "\x00", " \n",
              "?web=1", "#frag", "%20", ";v=1", "\\", ":", "::$DATA", "~"]
@@ -139,6 +148,12 @@ def path_corpus(ctx, docs):
         for e in (rng.sample(router_exts, 6) + ["docx", "pdf", "tar.gz", "unknown", ""]):
             hostile.append(st + ("." + e if e else ""))
             hostile.append(st + ("." + e if e else "") + rng.choice(tails))
+    # names that merely END in the letters of an extension / file-type id, without the dot
+    for e in router_exts:
+        if e:
+            for pre in ("README_", "nightly-dump-", "scan.p", "x", "logs.old", ""):
+                hostile.append(pre + e.replace(".", ""))
+                hostile.append(pre + e)
     paths = hostile + paths
     ctx.extra["hostile_paths"] = len(hostile)
     # dedupe, keep order
@@ -180,7 +195,11 @@ class MimeConfig:
             for ext, typ in [(".docx", "application/pdf"), (".pdf", "text/html"), (".htm", "application/zip"),
                              (".exe", "application/pdf"), (".bin", "text/plain"), (".unknown", "application/msword"),
                              (".gz", "text/plain"), (".tgz", "application/pdf"), (".d", "message/rfc822"),
-                             (".docx2", "application/x-tar"), (".tar", "application/vnd.ms-excel")]:
+                             (".docx2", "application/x-tar"), (".tar", "application/vnd.ms-excel"),
+                             # known types in non-canonical spellings (case, parameters, blanks), as host databases have them
+                             (".tpl", "Text/Plain"), (".htmx", "text/html; charset=utf-8"), (".pdfx", "APPLICATION/PDF"),
+                             (".sp", " application/pdf"), (".xlsmx", "application/vnd.ms-excel.sheet.macroenabled.12"),
+                             (".unknown2", "Application/Zip")]:
                 mimetypes.add_type(typ, ext, strict=True)
         return self
 
@@ -282,7 +301,7 @@ def run(ctx):
         by_path.setdefault(p, []).append((cfg, sup, got))
     for p, rs in by_path.items():
         ext = os.path.splitext(p.lower())[1]
-        known = ext in router._SUPPORTED_EXTENSIONS or any(p.lower().endswith(c) for c in router._COMPOUND_EXTENSIONS)
+        known = ext in router._SUPPORTED_EXTENSIONS or any(p.lower().endswith(c) for c in _compound_keys(router))
         if known and len({(s_, g) for _, s_, g in rs}) != 1:
             ctx.finding(f"mime-dependent:{ext}", f"extension-routed path {p!r} changes with the MIME database: {rs}",
                         {"path": p, "results": rs})
